@@ -1,0 +1,95 @@
+// Verification seam (cargo feature `verif_hooks`). Nothing in here is compiled unless the
+// feature is on. An external model-checking engine installs a [Hooks] object at run time; the
+// facades in the sub-modules call it before delegating to the *real* primitive.
+
+//! Verification seam: scheduler / clock / scheduling-point hooks for an external model checker
+#![allow(missing_docs, missing_debug_implementations, unreachable_pub)]
+
+use std::future::Future;
+use std::pin::Pin;
+use std::sync::OnceLock;
+
+pub mod dashmap;
+pub mod inspect;
+pub mod sync;
+
+pub use sync::atomic;
+
+/// Boxed, not necessarily `Send`, unit future
+pub type LocalBoxFuture = Pin<Box<dyn Future<Output = ()> + 'static>>;
+
+/// Control handle over a task spawned through the seam
+pub trait TaskCtl: Send + Sync {
+    /// Request cancellation: the task's future is dropped at its next poll
+    fn abort(&self);
+    /// Has the task run to completion (or been cancelled)
+    fn is_finished(&self) -> bool;
+}
+
+/// Kinds of scheduling points
+#[derive(Debug, Clone, Copy, PartialEq, Eq, Hash)]
+pub enum PointKind {
+    /// before an atomic operation
+    Atomic,
+    /// before a mutex acquisition
+    Lock,
+    /// before a concurrent-map shard access
+    Map,
+    /// before a channel operation
+    Channel,
+    /// before a `Notify` operation
+    Notify,
+    /// anything else
+    Other,
+}
+
+/// The hooks an engine provides
+pub trait Hooks: Sync + 'static {
+    /// Spawn a task on the engine's executor
+    fn spawn(&self, name: Option<&str>, fut: LocalBoxFuture) -> Box<dyn TaskCtl>;
+    /// Virtual clock, nanoseconds
+    fn now_nanos(&self) -> u64;
+    /// A future that completes once the virtual clock reaches `deadline_nanos`
+    fn sleep_until(&self, deadline_nanos: u64) -> Pin<Box<dyn Future<Output = ()> + Send>>;
+    /// A scheduling point (the engine may switch to another task here)
+    fn point(&self, kind: PointKind, label: &'static str, obj: usize);
+    /// The resource `obj` the caller needs is held by a suspended task: run someone else first
+    fn contended(&self, obj: usize);
+    /// An explored environment answer in `0..n`, 0 is the default
+    fn choose(&self, label: &'static str, n: usize) -> usize;
+}
+
+static HOOKS: OnceLock<&'static dyn Hooks> = OnceLock::new();
+
+/// Install the hooks (first call wins)
+pub fn install(h: &'static dyn Hooks) {
+    let _ = HOOKS.set(h);
+}
+
+pub(crate) fn hooks() -> &'static dyn Hooks {
+    *HOOKS.get().expect("ractor verif hooks not installed")
+}
+
+/// A scheduling point
+#[inline]
+pub fn point(kind: PointKind, label: &'static str, obj: usize) {
+    if let Some(h) = HOOKS.get() {
+        h.point(kind, label, obj)
+    }
+}
+
+#[inline]
+pub(crate) fn contended(obj: usize) {
+    match HOOKS.get() {
+        Some(h) => h.contended(obj),
+        None => std::thread::yield_now(),
+    }
+}
+
+#[inline]
+pub(crate) fn choose(label: &'static str, n: usize) -> usize {
+    match HOOKS.get() {
+        Some(h) => h.choose(label, n),
+        None => 0,
+    }
+}
